@@ -60,6 +60,7 @@ Json Workload::ToJson() const {
   j["track"] = track;
   if (legacy) j["legacy"] = legacy;
   if (nofeat) j["nofeat"] = nofeat;
+  if (xo) j["xo"] = xo;
   return j;
 }
 
@@ -103,6 +104,7 @@ Workload Workload::FromJson(const Json &j) {
   w.track = static_cast<int>(j.get("track").Int());
   w.legacy = j.has("legacy") ? static_cast<int>(j.get("legacy").Int()) : 0;
   w.nofeat = j.has("nofeat") ? static_cast<int>(j.get("nofeat").Int()) : 0;
+  w.xo = j.has("xo") ? static_cast<int>(j.get("xo").Int()) : 0;
   return w;
 }
 
@@ -824,7 +826,7 @@ void ApplyOptions(const Workload &w, draco::Encoder *enc) {
   for (int t = 0; t < 5; ++t) {
     if (w.qb[t] > 0 && w.xq[t] > 0) {
       float origin[4];
-      for (int d = 0; d < 4; ++d) origin[d] = -64.f - t - d;
+      for (int d = 0; d < 4; ++d) origin[d] = -64.f - t - d - 9.f * (w.xo & 3);
       enc->SetAttributeExplicitQuantization(
           static_cast<GeometryAttribute::Type>(t), w.qb[t], w.xq[t] > 4 ? 4 : w.xq[t],
           origin, 512.f);
@@ -850,7 +852,7 @@ void ApplyOptions(const Workload &w, const draco::PointCloud &pc,
     if (t < 0 || t > 4) continue;
     if (w.qb[t] > 0 && w.xq[t] > 0) {
       float origin[4];
-      for (int d = 0; d < 4; ++d) origin[d] = -64.f - t - d;
+      for (int d = 0; d < 4; ++d) origin[d] = -64.f - t - d - 9.f * (w.xo & 3);
       enc->SetAttributeExplicitQuantization(i, w.qb[t], w.xq[t] > 4 ? 4 : w.xq[t],
                                             origin, 512.f);
     } else if (w.qb[t] > 0) {
